@@ -5,6 +5,7 @@ import (
 	"go/constant"
 	"go/token"
 	"go/types"
+	"sort"
 	"strings"
 
 	"golang.org/x/tools/go/ssa"
@@ -256,6 +257,64 @@ func TypeTable(p *core.Prog, r *core.Report) {
 		r.OK(rule, "typeValidator:integrality-tolerance", pos, "no large fractional value of the table is taken for an integer")
 	}
 	_ = types.Typ
+	// the reverse lookup from Go types to (type, format): every named type of strfmt / swag the switch knows by
+	// value it also knows by pointer, and both lead to the same answer (a case list that loses one of the two makes
+	// the verdict depend on whether the caller passes the value or its address)
+	if g := p.Func("(*typeValidator).schemaInfoForType"); g != nil {
+		target := map[string]*ssa.BasicBlock{}
+		core.EachInstr(g, func(i ssa.Instruction) {
+			ta, ok := i.(*ssa.TypeAssert)
+			if !ok || !ta.CommaOk {
+				return
+			}
+			for _, ref := range core.Refs(ta) {
+				ex, isEx := ref.(*ssa.Extract)
+				if !isEx || ex.Index != 1 {
+					continue
+				}
+				for _, r2 := range core.Refs(ex) {
+					if ifi, isIf := r2.(*ssa.If); isIf && ifi.Cond == ssa.Value(ex) {
+						tb := ifi.Block().Succs[0]
+						for len(tb.Instrs) == 1 {
+							if _, isJ := tb.Instrs[0].(*ssa.Jump); !isJ {
+								break
+							}
+							tb = tb.Succs[0]
+						}
+						target[ta.AssertedType.String()] = tb
+					}
+				}
+			}
+		})
+		var lonely []string
+		nPairs := 0
+		for ts, tb := range target {
+			if strings.HasPrefix(ts, "*") || !(strings.Contains(ts, "/strfmt.") || strings.Contains(ts, "/swag.")) {
+				continue
+			}
+			nPairs++
+			if pb, ok := target["*"+ts]; !ok {
+				lonely = append(lonely, ts+" (known by value only)")
+			} else if pb != tb {
+				lonely = append(lonely, ts+" (value and pointer lead to different answers)")
+			}
+		}
+		for ts := range target {
+			if strings.HasPrefix(ts, "*") && (strings.Contains(ts, "/strfmt.") || strings.Contains(ts, "/swag.")) {
+				if _, ok := target[strings.TrimPrefix(ts, "*")]; !ok {
+					lonely = append(lonely, ts+" (known by pointer only)")
+				}
+			}
+		}
+		sort.Strings(lonely)
+		r.Count("format_type_pairs", nPairs)
+		r.Floor("format_type_pairs", 20)
+		if len(lonely) > 0 {
+			r.Bad(rule, "schemaInfoForType:value-and-pointer", p.Pos(g.Pos()), "the type switch knows these formatted types in one of their two forms only: "+strings.Join(lonely, "; "))
+		} else {
+			r.OK(rule, "schemaInfoForType:value-and-pointer", p.Pos(g.Pos()), fmt.Sprintf("each of the %d formatted types is known by value and by pointer, with the same answer", nPairs))
+		}
+	}
 }
 
 // returnsErrorResult: the returned *Result is the value of a call (errorHelp.sErr(...)), possibly through φs
